@@ -57,6 +57,9 @@ Proof.
     destruct fail; [|destruct ap]; injection H as <-; simpl;
       (destruct (Nat.eq_dec x t) as [->|Hne]; [right; right; right; rewrite upd_eq, Hpc; auto | left; now rewrite upd_neq]).
   - destruct (pcs s t) as [|c0| | |old|nw o|oi ap|r|r|r] eqn:Hpc; try discriminate.
+    destruct ap; injection H as <-; simpl;
+      (destruct (Nat.eq_dec x t) as [->|Hne]; [right; right; right; rewrite upd_eq, Hpc; auto | left; now rewrite upd_neq]).
+  - destruct (pcs s t) as [|c0| | |old|nw o|oi ap|r|r|r] eqn:Hpc; try discriminate.
     injection H as <-. cbn [pcs].
     change (fun x0 : nat => if Nat.eqb x0 t then Ret r else if mem x0 (batch s) then Ret r else pcs s x0)
       with (complete_pcs s t r).
@@ -391,7 +394,7 @@ Proof.
     { intros s' Hs Hn. assert (I' : InvS s') by exact (stepS sg (l_s m) e s' I Hs).
       assert (V' : InvV r0 s') by exact (stepV sg r0 (l_s m) e s' I V Hs).
       split; [|split; auto]. apply (linv_idx sg r0 m e s'); auto. }
-    destruct e as [t c|t|t|t f|t|t f|t|t f|t|t|]; cbn -[step] in H;
+    destruct e as [t c|t|t|t f|t|t f|t|t f|t|t|t|]; cbn -[step] in H;
       try (match type of H with match step ?a ?b ?ev with _ => _ end = _ =>
              destruct (step a b ev) as [s'|] eqn:Hs; [|discriminate]; injection H as <-;
              apply Hgen; auto; intros ? ? ?; discriminate end).
